@@ -6,6 +6,7 @@ import BstreamVerif.Drv.ForkableDrv
 import BstreamVerif.Drv.Files
 import BstreamVerif.Drv.IndexDrv
 import BstreamVerif.Drv.FileDrv
+import BstreamVerif.Drv.StreamDrv
 /-
 bsmodel: reads the harness file (op / impl lines grouped in cases) on stdin, prints for every `op`
 line the model's answer (`model …`) and the monitor verdict on the implementation's answer.
@@ -32,6 +33,7 @@ def statefulCase (suite : String) (hdr : List String) (body : List (List String)
   | "index" => some (IndexDrv.handle hdr body)
   | "filesrc" => some (FileDrv.handleFileSrc hdr body)
   | "resolver" => some (FileDrv.handleResolver hdr body)
+  | "stream" => some (StreamDrv.handle hdr body)
   | _ => none
 
 def processCase (out : IO.FS.Stream) (hdr : List String) (body : Array (List String)) : IO Unit := do
